@@ -66,4 +66,16 @@ def Vars.merge (vs : Vars) (stamp : Option Dir) : Vars → Vars
   | (k, v) :: r =>
     Vars.merge (Vars.set k (match stamp with | some d => { v with dir := d } | none => v) vs) stamp r
 
+/-! ### Insertion sort (structural, so `decide` evaluates it) -/
+
+def insertBy (le : α → α → Bool) (x : α) : List α → List α
+  | [] => [x]
+  | y :: r => if le x y then x :: y :: r else y :: insertBy le x r
+
+def sortBy (le : α → α → Bool) : List α → List α
+  | [] => []
+  | x :: r => insertBy le x (sortBy le r)
+
+def sortNat : List Nat → List Nat := sortBy (fun a b => decide (a ≤ b))
+
 end TaskModel.Load
